@@ -138,6 +138,9 @@ fn run_history(out: &mut dyn Write, line: &str) {
     let callers = (c.u64("callers", 1) as usize).max(1);
     let concurrent = c.u64("cmode", 0) != 0;
     let reuse_vec = c.u64("reuse", 0) != 0;
+    // The caller's own call (index 0) panics with a payload whose destructor panics as well: the
+    // broadcast then leaves by unwinding, which must still happen only after every call is over.
+    let bomb = c.u64("bomb", 0) != 0;
     let pe_lines: std::sync::Mutex<Vec<String>> = std::sync::Mutex::new(Vec::new());
     let tc_line: std::sync::Mutex<Vec<(usize, usize)>> = std::sync::Mutex::new(Vec::new());
     {
@@ -200,6 +203,9 @@ fn run_history(out: &mut dyn Write, line: &str) {
                 let do_panic = panics_ref.iter().any(|&(pb, pi)| pb == b && pi == index);
                 evlog::log(evlog::TASK_END, b as u64, index as u64, do_panic as u64);
                 if do_panic {
+                    if bomb && index == 0 {
+                        std::panic::panic_any(Bomb);
+                    }
                     panic!("injected task panic b={b} index={index}");
                 }
                 token(b, index)
@@ -217,8 +223,13 @@ fn run_history(out: &mut dyn Write, line: &str) {
                     results.push(Some(7)); // pre-existing element must be kept
                 }
                 let pre = results.len();
-                pool.par_extend(results, n, task);
-                evlog::log(evlog::BCAST_RETURN, b as u64, n as u64, 0);
+                if bomb {
+                    let r = std::panic::catch_unwind(std::panic::AssertUnwindSafe(|| pool.par_extend(results, n, task)));
+                    evlog::log(evlog::BCAST_RETURN, b as u64, n as u64, r.is_err() as u64);
+                } else {
+                    pool.par_extend(results, n, task);
+                    evlog::log(evlog::BCAST_RETURN, b as u64, n as u64, 0);
+                }
                 let shown: Vec<String> = results[pre..]
                     .iter()
                     .map(|r| match r {
@@ -244,10 +255,19 @@ fn run_history(out: &mut dyn Write, line: &str) {
                 }
                 pe_lines.lock().unwrap().push(format!("PE {} {}", b, shown.join(",")));
             } else {
-                pool.broadcast(n, |i| {
-                    task(i);
-                });
-                evlog::log(evlog::BCAST_RETURN, b as u64, n as u64, 0);
+                if bomb {
+                    let r = std::panic::catch_unwind(std::panic::AssertUnwindSafe(|| {
+                        pool.broadcast(n, |i| {
+                            task(i);
+                        })
+                    }));
+                    evlog::log(evlog::BCAST_RETURN, b as u64, n as u64, r.is_err() as u64);
+                } else {
+                    pool.broadcast(n, |i| {
+                        task(i);
+                    });
+                    evlog::log(evlog::BCAST_RETURN, b as u64, n as u64, 0);
+                }
             }
             // Everything the calls wrote must be visible now.
             for index in 0..=n {
@@ -333,6 +353,17 @@ fn run_history(out: &mut dyn Write, line: &str) {
     }
     let _ = writeln!(out, "END {id}");
     let _ = out.flush();
+}
+
+/// Panic payload whose destructor panics (unless the thread is already unwinding).
+struct Bomb;
+
+impl Drop for Bomb {
+    fn drop(&mut self) {
+        if !std::thread::panicking() {
+            panic!("panic payload destructor panicked");
+        }
+    }
 }
 
 fn main() {
